@@ -126,6 +126,21 @@ theorem split_clean_in_unsplit_order (hL : Fuel.LoadedShape R') (hpos : Bridge.A
     exact IncludeNoAug.canonErrs_nil
 
 end Split2
+/-- No deviation statement in the unsplit set: none in the split set (they stay with the owner). -/
+theorem dev_split {s : Split} {R R' : Registry} {plug plug' : Plug} (h : IsSplitOf s R R' plug plug')
+    (hdev : ∀ x ∈ R.mods, x.stmt.all "deviation" = []) : ∀ x ∈ R'.mods, x.stmt.all "deviation" = [] := by
+  intro x hx
+  rw [IncludeLink.mods_split h.regs] at hx
+  rcases List.mem_append.1 hx with hx | hx
+  · obtain ⟨y, hy, rfl⟩ := List.mem_map.1 hx
+    by_cases hym : y.seq = s.m.seq
+    · have : y = s.m := IncludeLink.eq_m_of_seq h.regs hy hym
+      subst this
+      rw [IncludeLink.repl_m, h.text.kept "deviation" (by decide)]
+      exact hdev s.m hy
+    · rw [IncludeLink.repl_of_ne hym]; exact hdev y hy
+  · exact (h.text.sub_no_aug x hx).2.1
+
 section Reduce
 variable {s : Split} {R R' : Registry} (opts : Opts) (plug plug' : Plug) (h : IsSplitOf s R R' plug plug')
 
@@ -141,10 +156,11 @@ def LoopsRelated (s : Split) (R R' : Registry) (opts : Opts) (plug plug' : Plug)
 
 include h in
 theorem eq_inline_of_loopsRelated (hL : Fuel.LoadedShape R') (hpos : Bridge.AugPosDistinct R') (hplain : Bridge.AugArgsPlain R')
-    (hdev' : ∀ x ∈ R'.mods, x.stmt.all "deviation" = []) (hn' : NoLeftover R' opts plug')
+    (hn' : NoLeftover R' opts plug')
     (hdev : ∀ x ∈ R.mods, x.stmt.all "deviation" = []) (hn : NoLeftover R opts plug)
     (hclean : (processAll R opts plug).errors = []) (hS : LoopsRelated s R R' opts plug plug') :
     (processAll R' opts plug').errors = [] ∧ dumpOf (processAll R' opts plug') s.owner = dumpOf (processAll R opts plug) s.m := by
+  have hdev' := dev_split h hdev
   obtain ⟨a1, a2⟩ := IncludeNoAug.processAll_clean_stages R opts plug hclean
   obtain ⟨hlink, b1⟩ := stage1_split plug plug' h a1
   have b2 := (conv_split opts plug plug' h hlink a2).1
